@@ -57,8 +57,9 @@ class E2E:
 
     def expected(self, stored):
         tree = ast.parse(stored)
-        nodes = self.drv.call("c01.spec", tree=fe.export(tree))["nodes"]
-        return collections.Counter((t, ln) for t, ln in nodes), tree
+        r = self.drv.call("c01.spec", tree=fe.export(tree))
+        self.ctx.dist("hypothesis treeOk holds on the (tweaked) real tree" if r["wf"] else "hypothesis treeOk FAILS on the (tweaked) real tree")
+        return collections.Counter((t, ln) for t, ln in r["nodes"]), tree
 
     def got_from_labels(self, labels, exp):
         ptypes = self.ptypes | {t for (t, _) in exp}
